@@ -254,7 +254,7 @@ func TestVerifC12(t *testing.T) {
 	for _, name := range []string{"empty", "one", "two"} {
 		reqs = append(reqs, zzvDeviations(name, bases[name])...)
 	}
-	if p.Thorough() {
+	{
 		// Every pair of single-field deviations of the one-program report, merged key by key:
 		// valid iff both are valid (a don't-care stays a don't-care).
 		devs := zzvDeviations("one", bases["one"])
